@@ -188,6 +188,9 @@ public:
 		LogStatus = logger::Debug2,
 		LogAction = logger::Info
 	};
+private:
+	dispatch(const dispatch &); /* disable copy (owns handlers and reply context) */
+	dispatch & operator =(const dispatch &);
 protected:
 #else
 MPT_STRUCT(dispatch)
